@@ -20,6 +20,8 @@ if ALT:
     os.makedirs(os.path.dirname(COQ), exist_ok=True)
     subprocess.run(["rsync", "-a", "--delete", "--exclude", "theories/Tables/*.v", "--exclude", "Makefile*", "--exclude", ".Makefile*",
                     "--exclude", "_CoqProject", os.path.join(VERIF, "coq") + "/", COQ + "/"], check=False)
+# a run against a private checkout keeps its evidence and replay files apart from those of the real /repo
+OUT = os.path.join(CACHE, "alt", _tag) if ALT else VERIF
 HOOK_CFG = "mimium_verif"
 NPROC = os.cpu_count() or 4
 
@@ -442,7 +444,7 @@ class Check:
         self.discharged = 0
         self.broken = []       # names of theorems / correspondences that no longer check
         if not self.replay:
-            shutil.rmtree(os.path.join(VERIF, "replay", self.pid), ignore_errors=True)
+            shutil.rmtree(os.path.join(OUT, "replay", self.pid), ignore_errors=True)
 
     # -- evidence ---------------------------------------------------------
     def sample(self, x, cap=6):
@@ -454,7 +456,7 @@ class Check:
 
     # -- violations ---------------------------------------------------------
     def violation(self, what, replay_obj, no_input=False):
-        d = os.path.join(VERIF, "replay", self.pid)
+        d = os.path.join(OUT, "replay", self.pid)
         os.makedirs(d, exist_ok=True)
         body = json.dumps({"property": self.pid, "what": what, "no_failing_input_found": no_input,
                            "tier": self.tier, "seed": self.seed, "replay": replay_obj}, indent=1, sort_keys=True)
@@ -553,8 +555,8 @@ class Check:
         ev = {"property_id": self.pid, "tier": self.tier, "seed": self.seed, "level": self.level,
               "coverage": cov, "assumptions": self.assumptions + trusted_base,
               "wall_s": round(time.time() - self.t0, 2), "violations": len(self.violations)}
-        os.makedirs(os.path.join(VERIF, "evidence"), exist_ok=True)
-        with open(os.path.join(VERIF, "evidence", self.pid + ".json"), "w") as f:
+        os.makedirs(os.path.join(OUT, "evidence"), exist_ok=True)
+        with open(os.path.join(OUT, "evidence", self.pid + ".json"), "w") as f:
             json.dump(ev, f, indent=1, sort_keys=True)
             f.write("\n")
         if self.violations:
